@@ -33,6 +33,14 @@ CHECKS.update({
             "DESIGN.md section 5 C19"),
 })
 
+CHECKS.update({
+    "C14": ("other",
+            "symbolic execution (symx/z3) of the real unify with symbolic kind fields over all operand-class singles/pairs/triples; real SymbolKindFinder under symbolic presentation order (rank-sorted by forking), tables compared across all order paths",
+            "Bounded symbolic checking: unify laws (idempotent, commutative, associative where defined) are decided by z3 on every path for all values of is_real_valued and all user-type identifiers, for every combination of operand classes (exhaustive: 6+36+216). Inference: for each program of a curated + seeded random family every permutation of statement lists and phase list is a path; the resulting table must be identical on all of them.",
+            "Trusted: z3, symx proxies. 'Defined' = returns without raising. Order-dependence on ill-typed programs is a listed known finding (C14-K1).",
+            "DESIGN.md section 5 C14"),
+})
+
 NOT_APPLICABLE = {
 }
 
